@@ -76,6 +76,18 @@ const (
 	kFuncValueArgs     = "func-value-args-reversed"
 	kDerefStore        = "deref-field-store-lost"
 	kXorAssign         = "xor-assign-rejected"
+	// the rest of that audit (second builder): embedded structs, function values, shifts, slices, big scripts
+	kPromotedMethod = "promoted-method-call"
+	kNamedFuncValue = "named-func-value"
+	kTypeSwitch     = "type-switch-compiler-panic"
+	kAndNot         = "and-not-rejected"
+	kMethodValue    = "method-value-misleading-error"
+	kBigOffsets     = "method-offset-above-64k"
+	kShiftCount     = "shift-count-above-256"
+	kRangeArrayCopy = "range-array-not-copied"
+	kAppendAlias    = "append-extends-operand"
+	kSubsliceCopy   = "byte-subslice-copy"
+	kStringRunes    = "string-range-bytes"
 )
 
 type vinfo struct {
@@ -99,6 +111,7 @@ type vinfo struct {
 	maxLen   float64 // string / []byte: upper bound of the length
 	noAppend bool    // string: += is not allowed (the bound has no room for growth)
 	hidden   bool    // temporarily not usable in expressions
+	fromLit  bool    // []int: holds the value of a slice literal (capacity == length) as long as nothing is appended
 	sel      string  // struct / pointer: how selectors on this variable are written: v.x, "paren": (v).x, "deref": (*v).x
 }
 
@@ -183,6 +196,9 @@ type gen struct {
 	// (tickV is the counter g9 once the helper has been used), see side.go
 	gotoProg bool
 	tickProg bool
+	// tswProg / mvalProg: this program may contain a type switch / a method value (constructs the compiler refuses by name)
+	tswProg  bool
+	mvalProg bool
 	tickV    *vinfo
 	// markV: the trace g8 of the deferred calls (side.go), markFn: the helper mark is called somewhere
 	markV  *vinfo
@@ -462,6 +478,11 @@ func (g *gen) arith(op string, a, b ex) ex {
 		default:
 			r.lo, r.hi = pow2hull(a, b)
 		}
+	case "&^":
+		r.lo, r.hi = pow2hull(a, b)
+		if a.lo >= 0 {
+			r.lo, r.hi = 0, a.hi
+		}
 	case "|", "^":
 		r.lo, r.hi = pow2hull(a, b)
 		if a.lo >= 0 && b.lo >= 0 {
@@ -520,7 +541,13 @@ func (g *gen) genInt(d int) ex {
 		return g.intLit()
 	case 2:
 		ops := []string{"+", "-", "*", "+", "-", "*", "/", "%", "&", "|", "^"}
+		if g.on(kAndNot) {
+			ops = append(ops, "&^")
+		}
 		op := ops[g.n(len(ops), "op")]
+		if op == "&^" {
+			g.mark("and-not")
+		}
 		a := g.genInt(d - 1)
 		var b ex
 		if op == "/" || op == "%" {
@@ -611,6 +638,16 @@ func (g *gen) genInt(d int) ex {
 		op := []string{"<<", ">>"}[g.n(2, "sh")]
 		var k ex
 		switch {
+		case op == ">>" && g.chance(15) && g.on(kShiftCount):
+			// a count beyond the width of any integer: Go gives 0 (-1 for a negative operand)
+			if g.chance(40) {
+				v := []int64{63, 64, 100, 255, 256, 257, 300, 1000}[g.n(8, "shb")]
+				k = ex{n: ilit(v), lo: float64(v), hi: float64(v), konst: true}
+			} else {
+				e := g.genInt(d - 1)
+				k = ex{n: bin("&", e.n, ilit(1023)), lo: 0, hi: 1023, pan: e.pan, hard: e.hard, konst: e.konst}
+			}
+			g.mark("shift-count-large")
 		case g.chance(60):
 			v := int64(g.n(9, "shc"))
 			k = ex{n: ilit(v), lo: float64(v), hi: float64(v), konst: true}
@@ -879,6 +916,9 @@ func (g *gen) genFieldRead(typ string) (ex, bool) {
 				for _, nf := range nd.Fields {
 					if nf.Type == typ {
 						cs = append(cs, cand{v, []string{f.Name, nf.Name}})
+						if f.Name == sd.Emb {
+							cs = append(cs, cand{v, []string{nf.Name}}) // promoted field
+						}
 					}
 				}
 			}
@@ -961,6 +1001,30 @@ func (g *gen) callOK(f *fsig, exprCtx bool) bool {
 	return true
 }
 
+// recvVars lists the variables a method can be called on: those of the receiver type and, when the struct of the
+// receiver is embedded in another one, the variables of the embedding struct (every variable is addressable, so both
+// the value and the pointer methods are promoted).
+func (g *gen) recvVars(f *fsig) []*vinfo {
+	out := g.varsOf(f.recv)
+	for i := range g.pr.Structs {
+		sd := &g.pr.Structs[i]
+		if sd.Emb != "" && sd.Emb == baseStruct(f.recv) && g.on(kPromotedMethod) {
+			out = append(out, g.varsOf(sd.Name)...)
+			out = append(out, g.varsOf("*"+sd.Name)...)
+		}
+	}
+	return out
+}
+
+func (g *gen) pickRecv(f *fsig) *vinfo {
+	c := g.recvVars(f)
+	v := c[g.n(len(c), "recv")]
+	if baseStruct(v.typ) != baseStruct(f.recv) {
+		g.mark("promoted-method-call")
+	}
+	return v
+}
+
 // genArgs builds the argument list for a call of f; false when some argument can not be produced.
 func (g *gen) genArgs(f *fsig, d int) ([]*Node, ex, bool) {
 	var args []*Node
@@ -1025,7 +1089,7 @@ func (g *gen) genCall(typ string, d int) (ex, bool) {
 	}
 	var ms []*fsig
 	for _, f := range g.funcs {
-		if f.recv != "" && len(f.results) == 1 && f.results[0] == typ && g.callOK(f, true) && len(g.varsOf(f.recv)) > 0 {
+		if f.recv != "" && len(f.results) == 1 && f.results[0] == typ && g.callOK(f, true) && len(g.recvVars(f)) > 0 {
 			ms = append(ms, f)
 		}
 	}
@@ -1051,7 +1115,7 @@ func (g *gen) genCall(typ string, d int) (ex, bool) {
 	}
 	var n *Node
 	if f.recv != "" {
-		rv := g.pickVar(f.recv, nil)
+		rv := g.pickRecv(f)
 		g.useVar(rv)
 		n = &Node{K: "mcall", S: f.name, A: append([]*Node{vr(rv.name)}, args...)}
 		g.mark("method-call")
